@@ -17,6 +17,7 @@
 package leveldb
 
 import (
+	"github.com/LemoFoundationLtd/lemochain-core/common/verifhook"
 	"github.com/LemoFoundationLtd/lemochain-core/metrics"
 	gometrics "github.com/rcrowley/go-metrics"
 	"github.com/syndtr/goleveldb/leveldb"
@@ -106,6 +107,14 @@ func (db *LevelDBDatabase) Put(key []byte, value []byte) error {
 
 	if db.writeMeter != nil {
 		db.writeMeter.Mark(int64(len(value)))
+	}
+	if verifhook.Enabled {
+		site := "index"
+		if string(key) == string(StableBlockKey) {
+			site = "stable-pointer"
+		}
+		verifhook.Point("leveldb:before-put:" + site)
+		defer verifhook.Point("leveldb:after-put:" + site)
 	}
 	return db.db.Put(key, value, nil)
 }
